@@ -213,4 +213,64 @@ vpv_cell!(#[kani::unwind(6)] c09_pred_ge, "C09/expr_to_sase_predicate/Ge/field-o
     let ok = match &p { Some(Predicate::Compare { field, op, value }) => field.as_str() == "f" && *op == c && matches!(value, Value::Int(x) if *x == v), _ => false };
     std::mem::forget(p); std::mem::forget(e);
     ok });
-vpv_replay_table!(c09_eq_int_int, c09_eq_int_float, c09_eq_float_int, c09_eq_float_float, c09_eq_str_str, c09_eq_bool_bool, c09_eq_mismatched_kinds, c09_noteq_int_int, c09_noteq_int_float, c09_noteq_float_int, c09_noteq_float_float, c09_noteq_str_str, c09_noteq_bool_bool, c09_noteq_mismatched_kinds, c09_lt_int_int, c09_lt_int_float, c09_lt_float_int, c09_lt_float_float, c09_lt_str_str, c09_lt_bool_bool, c09_lt_mismatched_kinds, c09_le_int_int, c09_le_int_float, c09_le_float_int, c09_le_float_float, c09_le_str_str, c09_le_bool_bool, c09_le_mismatched_kinds, c09_gt_int_int, c09_gt_int_float, c09_gt_float_int, c09_gt_float_float, c09_gt_str_str, c09_gt_bool_bool, c09_gt_mismatched_kinds, c09_ge_int_int, c09_ge_int_float, c09_ge_float_int, c09_ge_float_float, c09_ge_str_str, c09_ge_bool_bool, c09_ge_mismatched_kinds, c09_pred_eq, c09_pred_noteq, c09_pred_lt, c09_pred_le, c09_pred_gt, c09_pred_ge);
+vpv_cell!(#[kani::unwind(6)] c09_pred_literal_left_eq, "C09/expr_to_sase_predicate/Eq/literal-op-field is either left to the expression evaluator or mirrored correctly", (v: i64), {
+    let (b, _c) = ops(0);
+    let e = Expr::Binary { op: b, left: Box::new(Expr::Int(v)), right: Box::new(Expr::Ident(String::from("f"))) };
+    let p = expr_to_sase_predicate(&e);
+    let ok = match &p {
+        Some(Predicate::Expr(_)) => true,
+        Some(Predicate::Compare { field, op, value }) => field.as_str() == "f" && *op == CompareOp::Eq && matches!(value, Value::Int(x) if *x == v),
+        _ => false };
+    std::mem::forget(p); std::mem::forget(e);
+    ok });
+vpv_cell!(#[kani::unwind(6)] c09_pred_literal_left_noteq, "C09/expr_to_sase_predicate/NotEq/literal-op-field is either left to the expression evaluator or mirrored correctly", (v: i64), {
+    let (b, _c) = ops(1);
+    let e = Expr::Binary { op: b, left: Box::new(Expr::Int(v)), right: Box::new(Expr::Ident(String::from("f"))) };
+    let p = expr_to_sase_predicate(&e);
+    let ok = match &p {
+        Some(Predicate::Expr(_)) => true,
+        Some(Predicate::Compare { field, op, value }) => field.as_str() == "f" && *op == CompareOp::NotEq && matches!(value, Value::Int(x) if *x == v),
+        _ => false };
+    std::mem::forget(p); std::mem::forget(e);
+    ok });
+vpv_cell!(#[kani::unwind(6)] c09_pred_literal_left_lt, "C09/expr_to_sase_predicate/Lt/literal-op-field is either left to the expression evaluator or mirrored correctly", (v: i64), {
+    let (b, _c) = ops(2);
+    let e = Expr::Binary { op: b, left: Box::new(Expr::Int(v)), right: Box::new(Expr::Ident(String::from("f"))) };
+    let p = expr_to_sase_predicate(&e);
+    let ok = match &p {
+        Some(Predicate::Expr(_)) => true,
+        Some(Predicate::Compare { field, op, value }) => field.as_str() == "f" && *op == CompareOp::Gt && matches!(value, Value::Int(x) if *x == v),
+        _ => false };
+    std::mem::forget(p); std::mem::forget(e);
+    ok });
+vpv_cell!(#[kani::unwind(6)] c09_pred_literal_left_le, "C09/expr_to_sase_predicate/Le/literal-op-field is either left to the expression evaluator or mirrored correctly", (v: i64), {
+    let (b, _c) = ops(3);
+    let e = Expr::Binary { op: b, left: Box::new(Expr::Int(v)), right: Box::new(Expr::Ident(String::from("f"))) };
+    let p = expr_to_sase_predicate(&e);
+    let ok = match &p {
+        Some(Predicate::Expr(_)) => true,
+        Some(Predicate::Compare { field, op, value }) => field.as_str() == "f" && *op == CompareOp::Ge && matches!(value, Value::Int(x) if *x == v),
+        _ => false };
+    std::mem::forget(p); std::mem::forget(e);
+    ok });
+vpv_cell!(#[kani::unwind(6)] c09_pred_literal_left_gt, "C09/expr_to_sase_predicate/Gt/literal-op-field is either left to the expression evaluator or mirrored correctly", (v: i64), {
+    let (b, _c) = ops(4);
+    let e = Expr::Binary { op: b, left: Box::new(Expr::Int(v)), right: Box::new(Expr::Ident(String::from("f"))) };
+    let p = expr_to_sase_predicate(&e);
+    let ok = match &p {
+        Some(Predicate::Expr(_)) => true,
+        Some(Predicate::Compare { field, op, value }) => field.as_str() == "f" && *op == CompareOp::Lt && matches!(value, Value::Int(x) if *x == v),
+        _ => false };
+    std::mem::forget(p); std::mem::forget(e);
+    ok });
+vpv_cell!(#[kani::unwind(6)] c09_pred_literal_left_ge, "C09/expr_to_sase_predicate/Ge/literal-op-field is either left to the expression evaluator or mirrored correctly", (v: i64), {
+    let (b, _c) = ops(5);
+    let e = Expr::Binary { op: b, left: Box::new(Expr::Int(v)), right: Box::new(Expr::Ident(String::from("f"))) };
+    let p = expr_to_sase_predicate(&e);
+    let ok = match &p {
+        Some(Predicate::Expr(_)) => true,
+        Some(Predicate::Compare { field, op, value }) => field.as_str() == "f" && *op == CompareOp::Le && matches!(value, Value::Int(x) if *x == v),
+        _ => false };
+    std::mem::forget(p); std::mem::forget(e);
+    ok });
+vpv_replay_table!(c09_pred_literal_left_eq, c09_pred_literal_left_noteq, c09_pred_literal_left_lt, c09_pred_literal_left_le, c09_pred_literal_left_gt, c09_pred_literal_left_ge, c09_eq_int_int, c09_eq_int_float, c09_eq_float_int, c09_eq_float_float, c09_eq_str_str, c09_eq_bool_bool, c09_eq_mismatched_kinds, c09_noteq_int_int, c09_noteq_int_float, c09_noteq_float_int, c09_noteq_float_float, c09_noteq_str_str, c09_noteq_bool_bool, c09_noteq_mismatched_kinds, c09_lt_int_int, c09_lt_int_float, c09_lt_float_int, c09_lt_float_float, c09_lt_str_str, c09_lt_bool_bool, c09_lt_mismatched_kinds, c09_le_int_int, c09_le_int_float, c09_le_float_int, c09_le_float_float, c09_le_str_str, c09_le_bool_bool, c09_le_mismatched_kinds, c09_gt_int_int, c09_gt_int_float, c09_gt_float_int, c09_gt_float_float, c09_gt_str_str, c09_gt_bool_bool, c09_gt_mismatched_kinds, c09_ge_int_int, c09_ge_int_float, c09_ge_float_int, c09_ge_float_float, c09_ge_str_str, c09_ge_bool_bool, c09_ge_mismatched_kinds, c09_pred_eq, c09_pred_noteq, c09_pred_lt, c09_pred_le, c09_pred_gt, c09_pred_ge);
